@@ -208,6 +208,19 @@ func e1Seeds() (box []e1Seed, file []e1Seed) {
 			e1SeedCache.unencodable = append(e1SeedCache.unencodable, s.b.Type())
 		}
 	}
+	// S2b: hand-made boxes whose inner order matters (descriptor lists are not box children, so the tree-level
+	// deviations do not permute them)
+	for name, hx := range map[string]string{
+		"raw/esds decconfig,other,slconfig":    "0000002765736473000000000319000100040d40150000000001f4000001f40009020001060102",
+		"raw/esds decconfig,slconfig,other":    "0000002765736473000000000319000100040d40150000000001f4000001f40006010209020001",
+		"raw/esds decconfig,slconfig,slconfig": "0000002665736473000000000318000100040d40150000000001f4000001f400060102060103",
+		"raw/esds decconfig only":              "0000002065736473000000000312000100040d40150000000001f4000001f400",
+		"raw/esds decspecific,other,slconfig":  "0000002b6573647300000000031d000100041140150000000001f4000001f4000502119009020001060102",
+	} {
+		if b, err := hexDecode(hx); err == nil {
+			addBox(name, "esds", b)
+		}
+	}
 	// S3: tiny generated files (progressive and fragmented, incl. encrypted-looking layouts come from C06 later)
 	for i, sp := range e1TinyProgSpecs() {
 		if pf, err := gen.BuildProg(sp); err == nil {
@@ -329,5 +342,8 @@ func e1TinyFragSpecs() []*gen.FSpec {
 		{Tracks: []gen.FTrack{{ID: 1, Timescale: 1000, Media: "video"}}, Segments: []gen.FSegment{{Styp: true, Fragments: []gen.FFragment{{Runs: []gen.FRun{{TrackID: 1, Samples: s(2)}}}, {Runs: []gen.FRun{{TrackID: 1, Samples: s(1)}}, Emsg: true}}}}},
 		{Tracks: []gen.FTrack{{ID: 1, Timescale: 1000, Media: "video"}, {ID: 2, Timescale: 48000, Media: "audio"}}, Defaults: 1,
 			Segments: []gen.FSegment{{Fragments: []gen.FFragment{{Runs: []gen.FRun{{TrackID: 1, Samples: s(2)}, {TrackID: 2, Samples: s(1)}, {TrackID: 1, Samples: s(1)}}}}}, {Styp: true, Fragments: []gen.FFragment{{Runs: []gen.FRun{{TrackID: 2, Samples: s(2)}}}}}}},
+		// tfhd base_data_offset, trun without data_offset
+		{Tracks: []gen.FTrack{{ID: 1, Timescale: 1000, Media: "video"}}, BaseOffset: true, Segments: []gen.FSegment{{Fragments: []gen.FFragment{{Runs: []gen.FRun{{TrackID: 1, Samples: s(2)}}}, {Runs: []gen.FRun{{TrackID: 1, Samples: s(1)}}}}}}},
+		{Tracks: []gen.FTrack{{ID: 1, Timescale: 1000, Media: "video"}}, BaseOffset: true, Defaults: 2, Segments: []gen.FSegment{{Styp: true, Fragments: []gen.FFragment{{Runs: []gen.FRun{{TrackID: 1, Samples: s(1)}, {TrackID: 1, Samples: s(2)}}}}}}},
 	}
 }
